@@ -62,7 +62,7 @@ func (p *Program) rangeFact(t Term, goType types.Type) Term {
 	return Term{r, "Bool"}
 }
 
-func (p *Program) globalValue(ex *Exec, name string, pos token.Pos) Val {
+func (p *Program) globalValue(ex *Exec, name, gsort string, pos token.Pos) Val {
 	switch name {
 	case "encoding/binary.BigEndian":
 		return Term{"bigEndian", p.sorts.declareOpaque("Opaque_bigEndian")}
@@ -74,6 +74,15 @@ func (p *Program) globalValue(ex *Exec, name string, pos token.Pos) Val {
 			h = (h*31 + int(c)) % 1000003
 		}
 		return Term{fmt.Sprintf("(SomeErr %d)", 1000000+h), "Err"}
+	}
+	// package-level variables of other packages holding plain values: immutable opaque constants
+	if gsort == "Str" || gsort == "Int" || gsort == "Bool" {
+		c := "gx_" + sanitize(name)
+		if _, ok := p.sig.Funs[c]; !ok {
+			p.sig.Funs[c] = &FunSig{Ret: gsort}
+			p.sorts.decls = append(p.sorts.decls, fmt.Sprintf("(declare-const %s %s)", c, gsort))
+		}
+		return Term{c, gsort}
 	}
 	ex.unsup(pos, "read of package-level variable %s", name)
 	return &unknownVal{"global " + name}
